@@ -5,7 +5,8 @@
    (StoreLoadIdentity, LoadYieldsStored, LoadStoreIdempotent, CreationOptionsSurvive); every action must be covered.
    The package family: platform x user variable file x replication x DoWhile x blueprint layers defining the same option
    (default/platform x global/stage); a stage variable that references replica / loopIteration and a variable the component
-   overrides; the live objects are made by Create or by Load (Iterate commutes with Store;Load).
+   overrides; a component that sets options explicitly to [] / "" / 0 / false where blueprint, built-in and global values are
+   not (explicitly empty is not absent); the live objects are made by Create or by Load (Iterate commutes with Store;Load).
 2. spec -> code: TLC prints every transition with a shortest history that reaches it (ACTION_CONSTRAINT EmitStep).  Every
    maximal history is executed on real directories: Experiment.experimentFromPackage (platform, user variable file,
    replication, DoWhile document), WorkflowGraph.instantiate_dowhile_next_iteration, a dynamic option change,
@@ -22,6 +23,7 @@ import shutil
 
 from ..common import Check, MachineryError, SPEC
 from .. import tlc
+from .c05 import raised_by_real_code
 
 PID = "C07"
 ACTIONS = ["Create", "Iterate", "Patch", "Store", "Load"]
@@ -62,6 +64,13 @@ def package_files(pk):
     comps = [comp("gen", 0, "%(uv)s %(pv)s %(sv)s %(gv)s %(pp)s", variables={"pp": 0},
                   override={"plat": {"command": {"arguments": "OVR %(uv)s %(pv)s %(sv)s %(gv)s %(pp)s"}}})]
     comps[0]["command"]["environment"] = "env1"
+    opt = comp("opt", 0, "[%(es)s] %(zero)s %(flag)s")
+    if pk.get("ex", "absent") == "empty":         # explicitly empty / zero / false, where the defaults are not
+        opt.update({"variables": {"es": "", "zero": 0, "flag": False}, "references": [],
+                    "executors": {"pre": [], "main": [], "post": []},
+                    "workflowAttributes": {"restartHookOn": [], "shutdownOn": [], "repeatRetries": 0,
+                                           "memoization": {"disable": {"strong": False}}}})
+    comps.append(opt)
     if pk["loop"]:
         doc = {"type": "DoWhile", "inputBindings": {"number": {"type": "output"}}, "condition": "stage1.stop/flag.txt:output",
                "components": [
@@ -78,13 +87,16 @@ def package_files(pk):
         comps.append(comp("gather", 2, "stage1.work:output %(mode)s", ["stage1.work:output"], gattr))
         refs = ["stage1.work:output", "stage2.gather:ref"]
     comps.append(comp("report", 3, " ".join(refs), refs))
-    variables = {"default": {"global": {"uv": "d-uv", "pv": "d-pv", "n": 2, "gv": "g-%(pv)s", "mode": "normal"},
+    variables = {"default": {"global": {"uv": "d-uv", "pv": "d-pv", "n": 2, "gv": "g-%(pv)s", "mode": "normal",
+                                        "es": "text", "zero": 5, "flag": True},
                              "stages": {0: {"sv": "d-sv"}}},
                  "plat": {"global": {"pv": "P-pv"}, "stages": {0: {"sv": "P-sv"}}}}
     if lz:
         variables["default"]["stages"][1] = {"lz": "z" + lz}
         variables["plat"]["stages"][1] = {"lz": "pz" + lz}
-    blueprint = {"default": {"global": {"resourceManager": {"config": {"walltime": 61}}}, "stages": {}},
+    blueprint = {"default": {"global": {"resourceManager": {"config": {"walltime": 61}},
+                                        "workflowAttributes": {"shutdownOn": ["KnownIssue"], "memoization": {"disable": {"strong": True}}}},
+                             "stages": {}},
                  "plat": {"global": {"resourceManager": {"config": {"walltime": 62}}}, "stages": {}}}
     for layer in BP_LAYERS[pk["bp"]]:
         plat = "default" if layer[0] == "d" else "plat"
@@ -193,7 +205,11 @@ def observed_view(exp, pk):
         lzs[(it, rep)] = a[3] if len(a) > 3 else None
     gathers = [n for n in nodes if n.startswith("stage2.") and n.split(".", 1)[1].split("#")[-1].startswith("gather")]
     threads2 = {int(wg.configurationForNode(n, raw=False)["resourceRequest"]["numberThreads"]) for n in gathers}
-    return {"live": True, "plat": wg.configuration.platform_name, "uv": v.get("uv"), "pv": v.get("pv"), "sv": v.get("sv"),
+    oc = wg.configurationForNode("stage0.opt", raw=False)
+    ow, ov = oc["workflowAttributes"], oc["variables"]
+    opt = {"hook": ow["restartHookOn"], "shut": ow["shutdownOn"], "retries": ow["repeatRetries"],
+           "memo": ow["memoization"]["disable"]["strong"], "es": ov.get("es"), "zero": ov.get("zero"), "flag": ov.get("flag")}
+    return {"opt": opt, "live": True, "plat": wg.configuration.platform_name, "uv": v.get("uv"), "pv": v.get("pv"), "sv": v.get("sv"),
             "nrep": nrep, "wall": int(gen["resourceManager"]["config"]["walltime"]), "ovr": ovr,
             "pp": int(v.get("pp")), "iters": iters,
             "threads": sorted(threads)[0] if len(threads) == 1 else sorted(threads),
@@ -299,7 +315,8 @@ def diff_class(d):
 
 
 def label(pk):
-    return "%s-%s%s%s-bp%s" % (pk["plat"], pk["uv"], "-repl" if pk["repl"] else "", "-loop" if pk["loop"] else "", pk["bp"])
+    return "%s-%s%s%s-bp%s%s" % (pk["plat"], pk["uv"], "-repl" if pk["repl"] else "", "-loop" if pk["loop"] else "", pk["bp"],
+                                 "-explicit-empties" if pk.get("ex") == "empty" else "")
 
 
 def hist_str(hist):
@@ -337,13 +354,22 @@ def run_history(args):
             except MachineryError:
                 raise
             except Exception as e:
-                if a in ("Load", "Store", "Iterate"):
+                # real code that raises on a package / history the spec calls valid is a violation, a harness failure is not
+                if raised_by_real_code(e):
                     viol("raises-%s" % a, i, "%s raised %s: %s" % (a, type(e).__name__, str(e)[:300]), type(e).__name__)
                     break
                 raise
             res["steps"] += 1
             want = expected[i]["mem"]
-            got = observed_view(h.exp, pk)
+            try:
+                got = observed_view(h.exp, pk)
+                after = project(h.exp) if a == "Load" else None
+            except Exception as e:
+                if raised_by_real_code(e):
+                    viol("raises-observing-after-%s" % a, i, "reading the configuration of the experiment after %s raised %s: %s" % (
+                        a, type(e).__name__, str(e)[:300]), type(e).__name__)
+                    break
+                raise
             bad = {k: (got[k], want[k]) for k in want if k != "lzp" and got[k] != want[k]}
             lz = lazy_suffix(pk)
             for (it, rep), val in sorted(got["_lz"].items()):
@@ -375,7 +401,6 @@ def run_history(args):
             known_bad |= set(bad)       # a divergence is reported where it first shows
             if a == "Load":
                 res["loads"] += 1
-                after = project(h.exp)
                 d = diff(h.stored_projection, after)
                 if d:
                     viol("projection-after-load", i, "%d difference(s) between the experiment that wrote the directory and the reloaded one: %s" % (
@@ -400,13 +425,14 @@ def run_history(args):
     return res
 
 
-def cfg_text(platforms, uservars, repls, loops, maxiter, maxpatch, maxlen, emit, props=True, blueprints=("g", "gs", "sP", "all")):
+def cfg_text(platforms, uservars, repls, loops, maxiter, maxpatch, maxlen, emit, props=True, blueprints=("g", "gs", "sP", "all"),
+             empties=("absent", "empty")):
     def s(xs):
         return "{" + ", ".join(xs) + "}"
-    t = ("CONSTANTS\n  Platforms = %s\n  UserVars = %s\n  Repls = %s\n  LoopsC = %s\n  Blueprints = %s\n  MaxIter = %d\n  MaxPatch = %d\n  MaxLen = %d\n  Emit = %s\n"
+    t = ("CONSTANTS\n  Platforms = %s\n  UserVars = %s\n  Repls = %s\n  LoopsC = %s\n  Blueprints = %s\n  Empties = %s\n  MaxIter = %d\n  MaxPatch = %d\n  MaxLen = %d\n  Emit = %s\n"
          "SPECIFICATION Spec\nVIEW view\nCONSTRAINT Bounded\nCHECK_DEADLOCK FALSE\n") % (
         s('"%s"' % p for p in platforms), s('"%s"' % u for u in uservars), s("TRUE" if r else "FALSE" for r in repls),
-        s("TRUE" if r else "FALSE" for r in loops), s('"%s"' % b for b in blueprints), maxiter, maxpatch, maxlen, "TRUE" if emit else "FALSE")
+        s("TRUE" if r else "FALSE" for r in loops), s('"%s"' % b for b in blueprints), s('"%s"' % e for e in empties), maxiter, maxpatch, maxlen, "TRUE" if emit else "FALSE")
     if props:
         t += ("INVARIANT TypeOK\nINVARIANT CreationOptionsSurvive\nINVARIANT DiskNeverAhead\nINVARIANT ViewIndependentOfOrigin\n"
               "PROPERTY StoreLoadIdentity\nPROPERTY LoadYieldsStored\nPROPERTY LoadStoreIdempotent\nPROPERTY StoreCapturesAll\nPROPERTY IterateCommutesWithReload\n")
@@ -487,20 +513,20 @@ def run(tier):
     os.makedirs(gen, exist_ok=True)
     thorough = tier == "thorough"
     full = dict(platforms=["default", "plat"], uservars=["none", "global", "stage"], repls=[False, True], loops=[False, True],
-                blueprints=["g", "gs", "sP", "all"])
+                blueprints=["g", "gs", "sP", "all"], empties=["absent", "empty"])
     maxlen, maxiter, maxpatch = 5, 2, 1
     if thorough:
-        families = [full]                  # all 96 packages
+        families = [full]                  # all 192 packages
     else:
         # sub-families (each a product) that together cover every value of every dimension with a loop and every pair
         # (platform, blueprint layers), (platform, user variables), (user variables, replication)
         families = [
-            dict(full, platforms=["plat"], uservars=["none"], repls=[True], loops=[True]),
-            dict(full, platforms=["default"], uservars=["none"], repls=[True], loops=[True], blueprints=["g", "gs"]),
-            dict(full, platforms=["plat"], uservars=["global"], repls=[True], loops=[True], blueprints=["sP"]),
-            dict(full, platforms=["default"], uservars=["stage"], repls=[False], loops=[True], blueprints=["gs"]),
+            dict(full, platforms=["plat"], uservars=["none"], repls=[True], loops=[True], empties=["empty"]),
+            dict(full, platforms=["default"], uservars=["none"], repls=[True], loops=[True], blueprints=["g", "gs"], empties=["absent"]),
+            dict(full, platforms=["plat"], uservars=["global"], repls=[True], loops=[True], blueprints=["sP"], empties=["absent"]),
+            dict(full, platforms=["default"], uservars=["stage"], repls=[False], loops=[True], blueprints=["gs"], empties=["empty"]),
             dict(full, loops=[False], blueprints=["gs"]),
-            dict(full, platforms=["plat"], uservars=["none"], repls=[True], loops=[False], blueprints=["g", "sP", "all"]),
+            dict(full, platforms=["plat"], uservars=["none"], repls=[True], loops=[False], blueprints=["g", "sP", "all"], empties=["empty"]),
         ]
     # 1. the design (whole family, one step deeper than the histories that are executed)
     c1 = _cfg(os.path.join(gen, "InstanceStore_mc_%s.cfg" % tier), cfg_text(maxiter=maxiter, maxpatch=2, maxlen=maxlen + 2, emit=False, **full))
@@ -569,7 +595,7 @@ def replay(path):
     os.makedirs(gen, exist_ok=True)
     c = _cfg(os.path.join(gen, "InstanceStore_replay_%d.cfg" % os.getpid()),
              cfg_text([pk["plat"]], [pk["uv"]], [pk["repl"]], [pk["loop"]], 2, 2, len(hist) + 1, True, props=False,
-                      blueprints=[pk.get("bp", "g")]).replace("VIEW view\n", ""))
+                      blueprints=[pk.get("bp", "g")], empties=[pk.get("ex", "absent")]).replace("VIEW view\n", ""))
     r = tlc.run_tlc("InstanceStore", c, workers=1, timeout=300)
     os.remove(c)
     by = {json.dumps(x["hist"], sort_keys=True): x for x in r["cases"]}
